@@ -24,7 +24,7 @@ func init() {
 
 func racePassExtra(id string) func(tier string, cov map[string]interface{}) []Violation {
 	return func(tier string, cov map[string]interface{}) []Violation {
-		work := filepath.Join(verifRoot, ".work", fmt.Sprintf("race-%s-%d", id, os.Getpid()))
+		work := filepath.Join(outRoot(), ".work", fmt.Sprintf("race-%s-%d", id, os.Getpid()))
 		os.MkdirAll(work, 0o755)
 		defer os.RemoveAll(work)
 		exe, _, err := buildOverlayBinary(work, true)
@@ -50,7 +50,7 @@ func racePassExtra(id string) func(tier string, cov map[string]interface{}) []Vi
 		if !strings.Contains(s, "DATA RACE") {
 			clause = id + ".equal_alone"
 		}
-		f := filepath.Join(verifRoot, ".out", id, id+"-racepass.replay.json")
+		f := filepath.Join(outRoot(), ".out", id, id+"-racepass.replay.json")
 		v := Violation{Property: id, Family: "fatal", Tier: tier, Clause: clause, Tags: []string{"free_running_race_pass"}, Detail: "free-running -race pass failed (" + rerr.Error() + "):\n" + firstLines(s, 60), File: f}
 		b, _ := json.MarshalIndent(v, "", " ")
 		os.WriteFile(f, b, 0o644)
